@@ -4,6 +4,7 @@
 mod common;
 mod sched_mode;
 mod store_mode;
+mod wire_mode;
 
 fn main() {
     let args: Vec<String> = std::env::args().collect();
@@ -11,6 +12,7 @@ fn main() {
     match mode {
         "store" => store_mode::run(),
         "sched" => sched_mode::run(),
+        "wire" => wire_mode::run(),
         _ => {
             eprintln!("usage: xsw <store> ...");
             std::process::exit(2);
